@@ -293,7 +293,8 @@ impl Sys {
                 return;
             }
         }
-        if self.w.partial_out() != 0 {
+        // (a transport whose write half has failed may of course have taken only part of a packet)
+        if self.w.partial_out() != 0 && !self.w.wire.borrow().write_err {
             let n = self.w.partial_out();
             self.violation(
                 "wire-partial-packet",
